@@ -27,3 +27,11 @@ Print Assumptions C19_cache_of_total.
 Theorem C19_span_lines_orig_refuted : span_lines_orig_refuted_stmt.
 Proof. exact span_lines_orig_refuted. Qed.
 Print Assumptions C19_span_lines_orig_refuted.
+
+Theorem C19_line_byte_spec : line_byte_spec_stmt.
+Proof. exact line_byte_spec. Qed.
+Print Assumptions C19_line_byte_spec.
+
+Theorem C19_line_byte_out_of_range : line_byte_out_of_range_stmt.
+Proof. exact line_byte_out_of_range. Qed.
+Print Assumptions C19_line_byte_out_of_range.
